@@ -18,8 +18,8 @@ ID = "C03"
 CASES = {"quick": 3000, "thorough": 30000}
 FLOOR = {"quick": 2000, "thorough": 20000}
 FLOOR_COUNTERS = {
-    "quick": {"route_pairs_compared": 2500, "captured_matrices": 3000, "arpack_fits": 500, "randomized_fits": 500},
-    "thorough": {"route_pairs_compared": 30000, "captured_matrices": 40000, "arpack_fits": 6000, "randomized_fits": 6000},
+    "quick": {"fits_through_fit_transform": 400, "configured_not_by_constructor": 400, "non_default_containers": 400, "route_pairs_compared": 2500, "captured_matrices": 3000, "arpack_fits": 500, "randomized_fits": 500},
+    "thorough": {"fits_through_fit_transform": 5000, "configured_not_by_constructor": 5000, "non_default_containers": 5000, "route_pairs_compared": 30000, "captured_matrices": 40000, "arpack_fits": 6000, "randomized_fits": 6000},
 }
 RULE = (
     "case = centred X (tall/wide/square/rank-deficient/decaying spectrum), Y with 1-3 targets (1-D and 2-D), mixing in "
@@ -45,6 +45,7 @@ def gen(rng, tier, index):
     if kind == "cliff":
         k = int((np.linalg.svd(X, compute_uv=False) > 0.5 * np.linalg.norm(X, 2)).sum()) + (np.ndim(Y) if rng.random() < 0.5 else 0)
     return {
+        "routes": pc.routes(rng),
         "X": X,
         "Y": Y,
         "kind": kind,
@@ -58,6 +59,7 @@ def gen(rng, tier, index):
 
 
 def run(case, j):
+    pc.use_routes(j, case)
     X, Y, reg, a, k = case["X"], case["Y"], case["reg"], case["mixing"], case["k"]
     n, m = X.shape
     j.tag(f"data:{case['kind']}", f"reg:{reg['kind']}", f"mixing:{a}", "y1d" if np.ndim(Y) == 1 else "y2d")
